@@ -148,6 +148,10 @@ def fold(e, env):
     t = ast.unparse(e)
     if t in env:
         return env[t]
+    if t in ("np.pi", "math.pi"):
+        return math.pi
+    if t in ("np.inf", "math.inf"):
+        return math.inf
     if isinstance(e, ast.Name):
         raise FoldError("free name %s" % e.id)
     if isinstance(e, ast.UnaryOp):
@@ -460,3 +464,66 @@ def exclusive(fn, a, b):
 
     da, db = arms_of(a), arms_of(b)
     return any(k in db and db[k] != v for k, v in da.items())
+
+
+def truthiness_uses(fn, name):
+    """Loads of `name` used as a truth value: operand of and/or/not, or the test of if/while/conditional expression."""
+    parents = {}
+    for p in ast.walk(fn):
+        for c in ast.iter_child_nodes(p):
+            parents[c] = p
+    out = []
+    for n in ast.walk(fn):
+        if isinstance(n, ast.Name) and n.id == name and isinstance(n.ctx, ast.Load):
+            p = parents.get(n)
+            if isinstance(p, ast.BoolOp) or (isinstance(p, ast.UnaryOp) and isinstance(p.op, ast.Not)) or (isinstance(p, (ast.If, ast.IfExp, ast.While)) and p.test is n):
+                out.append(p)
+    return out
+
+
+def none_default_rule(ctx, rule, prefixes, floor):
+    """A parameter whose default is None means 'not given' and must be recognised with `is None`: a truthiness test would also take
+    0, 0.0, '' or an empty array for 'not given' (a mean of exactly 0, a zero seed, ...)."""
+    n = 0
+    for m, q, f, ci, kind in ctx.prog.all_functions():
+        if m.pyx is not None or not m.relpath.startswith(tuple(prefixes)):
+            continue
+        a = f.args
+        pos = a.posonlyargs + a.args
+        dfl = dict(zip([x.arg for x in pos[len(pos) - len(a.defaults):]], a.defaults))
+        dfl.update({x.arg: d for x, d in zip(a.kwonlyargs, a.kw_defaults) if d is not None})
+        for nm, d in dfl.items():
+            if isinstance(d, ast.Constant) and d.value is None:
+                n += 1
+                for u in truthiness_uses(f, nm):
+                    ctx.violation(rule, "%s::%s" % (m.relpath, q), "parameter `%s` defaults to None ('not given') but is tested by truthiness in `%s`: a given value of 0 / 0.0 / an empty array is then treated as missing"
+                                  % (nm, " ".join(ast.unparse(u).split())[:90]), "truthy:%s:%s" % (nm, " ".join(ast.unparse(u).split())[:60]))
+    ctx.floor(rule, "None-default parameters inspected", n, floor)
+    ctx.ok(rule, ",".join(prefixes), "%d None-default parameters are recognised with `is None` only" % n)
+
+
+def call_arg(call, index, name):
+    """Argument bound to the parameter at `index` / called `name` (positional or keyword spelling)."""
+    if len(call.args) > index and not any(isinstance(a, ast.Starred) for a in call.args[:index + 1]):
+        return call.args[index]
+    for k in call.keywords:
+        if k.arg == name:
+            return k.value
+    return None
+
+
+def pad_side(call):
+    """np.pad(arr, (a, b), mode, ...) -> (side, mode text, amount text): side 'behind' when a == 0, 'front' when b == 0."""
+    w = call_arg(call, 1, "pad_width")
+    mode = call_arg(call, 2, "mode")
+    mode_t = mode.value if isinstance(mode, ast.Constant) else (ast.unparse(mode) if mode is not None else "constant")
+    if not (isinstance(w, ast.Tuple) and len(w.elts) == 2):
+        return None, mode_t, None
+    a, b = w.elts
+    za = isinstance(a, ast.Constant) and a.value == 0
+    zb = isinstance(b, ast.Constant) and b.value == 0
+    if za and not zb:
+        return "behind", mode_t, ast.unparse(b)
+    if zb and not za:
+        return "front", mode_t, ast.unparse(a)
+    return "both", mode_t, ast.unparse(w)
